@@ -39,16 +39,20 @@ def build_site(case):
     return site
 
 
-def argv_for(site, tmp, concurrent):
+def argv_for(site, tmp, concurrent, case=None):
+    case = case or {}
     extra = []
     if site.inputs:
         path = os.path.join(tmp, 'inputs.txt')
         with open(path, 'w') as f:
             f.write(''.join(u + '\n' for u in site.inputs))
         extra = ['--input-file', path]
-    return extra + [site.start, '-r', '--level', 'inf', '--no-robots', '--database', os.path.join(tmp, 'crawl.db'),
+    # the same on-disk table can be named by path or by SQLAlchemy URI; the tries limit must not matter when no fetch fails
+    db = ['--database-uri', 'sqlite:///' + os.path.join(tmp, 'crawl.db')] if case.get('db_uri') else \
+        ['--database', os.path.join(tmp, 'crawl.db')]
+    return extra + [site.start, '-r', '--level', 'inf', '--no-robots'] + db + [
             '-P', tmp, '--concurrent', str(concurrent), '--delete-after', '--page-requisites', '--quiet',
-            '--waitretry', '0', '--tries', '3']
+            '--waitretry', '0', '--tries', str(case.get('tries', 3))]
 
 
 FI_SO = os.path.join(common.VERIF, 'harness', 'fi', 'fi.so')
@@ -97,7 +101,7 @@ def run_case(case, part):
     kill = case.get('kill')
     replay = case
     try:
-        argv = argv_for(site, tmp, case['concurrent'])
+        argv = argv_for(site, tmp, case['concurrent'], case)
         table = {site.host: addrs[0]}
         res1_path = os.path.join(tmp, 'res1.json')
         sql_kill = kill if kill and kill['kind'] in ('before_stmt', 'after_stmt', 'before_commit', 'after_commit') else None
@@ -271,6 +275,12 @@ def main():
             for conc in ((1, 3) if check.thorough else (2,)):
                 workloads.append({'site_seed': site_seed, 'n_pages': rng.choice([8, 12, 20]) if check.thorough else 7,
                                   'concurrent': conc, 'delay_seed': rng.randrange(1 << 30)})
+        # option variants of the first workload: --tries 1 (an interrupted item must not be charged a try), table named by URI
+        base = dict(workloads[0])
+        workloads.append(dict(base, tries=1, variant='tries1'))
+        workloads.append(dict(base, db_uri=True, variant='db-uri'))
+        if check.thorough:
+            workloads.append(dict(workloads[1], tries=1, db_uri=True, variant='tries1+db-uri'))
         # a crawl with more start URLs than fit in one batch of the input task (1000): kills while the start URLs are
         # being stored
         for n_in in ((1001, 2500) if check.thorough else (1001,)):
@@ -301,6 +311,15 @@ def main():
                     points += [{'kind': 'before_commit', 'at': k} for k in range(1, setup_commits + 1)]
                     points += [{'kind': 'after_stmt', 'at': k} for k in range(ddl + 1, first_update + 1)]
                 check.count('kill_points_while_storing_start_urls', len(points))
+                for p in points:
+                    cases.append(dict(w, kill=p, reference_requests=ref))
+                continue
+            if w.get('variant') and not check.thorough:
+                # quick tier: the option variants get the kills during the download phase only
+                for k in range(R):
+                    for ph in ('request-line', 'after-response'):
+                        points.append({'kind': 'request', 'at': k, 'phase': ph})
+                check.count('kill_points_option_variants', len(points))
                 for p in points:
                     cases.append(dict(w, kill=p, reference_requests=ref))
                 continue
